@@ -98,7 +98,11 @@ fn consistent(entries: &[En]) -> bool {
         if (e.kind == 1) != e.name.ends_with('/') {
             return false;
         }
-        if body.is_empty() || e.name.contains('\0') || e.name.contains('\\') {
+        // host (Unix) semantics: a backslash is an ordinary character of a component. A FILE entry whose name contains one
+        // (also as its last character) is a file of exactly that name and must come out with its bytes; directory-typed
+        // entries with backslashes stay outside the positive clause (the crate's own is_dir() reads a trailing backslash
+        // as a directory marker, the statement does not say)
+        if body.is_empty() || e.name.contains('\0') || (e.name.contains('\\') && e.kind == 1) {
             return false;
         }
         let comps: Vec<&str> = body.split('/').collect();
@@ -542,7 +546,7 @@ pub fn run(args: &Args) -> i32 {
          x {{file, directory-typed, symlink-typed}} x content {{empty, 5 bytes}}; every 12-bit mode 0..=0o7777 on a file, 0o700..=0o777 and all special-bit combinations on a directory; two-entry archives over a {}-name alphabet squared x kind pairs (duplicates, file/directory conflicts, implied parents); three-entry archives over 11 names cubed (incl. names that are string prefixes but not path prefixes of one another); one five-entry tree (70 001-byte, 300-byte, 5-byte and empty files, explicit and implied directories) in all 120 entry orders x 8 archive layouts (plain, every method, data descriptors, prepended data, DOS made-by, forced ZIP64, reversed directory with gaps, written by the crate's own writer). Both ZipArchive::extract and ZipStreamReader::extract. \
          Oracle: (1) a recursive listing (type, size, mode, content hash) of everything in the sandbox outside the target is unchanged; (2) an unsafe name (lexical model) makes the call fail; (3) safe, mutually consistent archives extract successfully to exactly the model tree with byte-identical contents and the recorded permission bits. distinct_nontrivial = distinct (archive, extractor) pairs (hash set).",
         shapes.len(),
-        if thorough { 44 } else { 28 }
+        if thorough { 47 } else { 31 }
     );
     ctx.assume("Unix host, tmpfs scratch under /dev/shm (fallback /var/tmp), outside /repo and /verif, removed afterwards; run as any uid (directory modes kept >= 0700 in positive cases)");
     ctx.uncovered("how symlink-typed entries materialise (checked for confinement only); partial output after an error; safe-but-dotted names (confinement only)");
@@ -581,8 +585,8 @@ pub fn run(args: &Args) -> i32 {
     ctx.stats.merge(s);
     ctx.bound("permission_values", json!("files: all 4096 twelve-bit modes; directories: 0o700..=0o777 and 0o755 with every set-uid/gid/sticky combination"));
     // two-entry archives
-    let m = if thorough { 44 } else { 28 };
-    let mut red: Vec<String> = ["a", "b", "a/", "a/b", "a/b/", "b/a", "a/a", "../a", "/a", "a/../b", "a/..", "", "/", ".", "a/b/c", "a/b/c/", "b/", "{CANARY}/pwned", "../sibling/s", "a\0", "c", "a//b", "./a", "../../a", "ab/c", "abc/d", "ab.txt", "abc/"]
+    let m = if thorough { 47 } else { 31 };
+    let mut red: Vec<String> = ["a", "b", "a/", "a/b", "a/b/", "b/a", "a/a", "../a", "/a", "a/../b", "a/..", "", "/", ".", "a/b/c", "a/b/c/", "b/", "{CANARY}/pwned", "../sibling/s", "a\0", "c", "a//b", "./a", "../../a", "ab/c", "abc/d", "ab.txt", "abc/", "reports\\", "a/2024\\", "w\\x"]
         .iter()
         .map(|s| s.to_string())
         .collect();
